@@ -13,6 +13,7 @@ import (
 
 	"github.com/jcmturner/gofork/encoding/asn1"
 	"github.com/jcmturner/gokrb5/v8/asn1tools"
+	"github.com/jcmturner/gokrb5/v8/config"
 	"github.com/jcmturner/gokrb5/v8/credentials"
 	"github.com/jcmturner/gokrb5/v8/kadmin"
 	"github.com/jcmturner/gokrb5/v8/keytab"
@@ -59,6 +60,8 @@ func Eval(c Case) evid.Verdict {
 			return evalLength(c.N)
 		case "flag":
 			return evalFlag(c.N)
+		case "built-tgsreq", "built-asreq":
+			return evalBuilt(c)
 		case "use-ticket", "use-apreq", "use-asrep", "use-tgsrep", "use-krbpriv":
 			return evalUse(c)
 		case "spnego-framing", "krb5-framing":
@@ -185,6 +188,86 @@ func evalFlag(i int) evid.Verdict {
 }
 
 // evalUse: Marshal after decrypt/verify must return the bytes received.
+// evalBuilt: requests made by the library's own constructors (NewTGSReq, NewUser2UserTGSReq, NewASReqForTGT), one field of
+// the body assigned afterwards as an application may (nonce, till, an etype list, a KDC option, a further additional
+// ticket), then Marshal: an independent decoder must read the values the object holds now, and Unmarshal must give them back.
+func evalBuilt(c Case) evid.Verdict {
+	cfg, err := config.NewFromString("[libdefaults]\n default_realm = EXAMPLE.COM\n default_tgs_enctypes = aes256-cts-hmac-sha1-96 aes128-cts-hmac-sha1-96\n default_tkt_enctypes = aes256-cts-hmac-sha1-96\n forwardable = true\n")
+	if err != nil {
+		return evid.Fail("harness", "config: %v", err)
+	}
+	et := c.EType
+	sess := types.EncryptionKey{KeyType: et, KeyValue: ref.RandomKey(et, kgen.DetBytes(c.Seed, "c13/built/sess", 32))}
+	kv := 2
+	tk := &mint.TicketSpec{Realm: "EXAMPLE.COM", SName: "krbtgt/EXAMPLE.COM", SNameType: 2, KVNO: &kv, EncKey: mint.Key{EType: et, Value: ref.RandomKey(et, kgen.DetBytes(c.Seed, "c13/built/k", 32))},
+		Conf: kgen.DetBytes(c.Seed, "c13/built/conf", 16), Flags: mint.Flag(1), Session: mint.Key{EType: et, Value: sess.KeyValue}, CRealm: "EXAMPLE.COM", CName: "alice", CNameType: 1,
+		AuthTime: time.Unix(1700000000, 0).UTC(), EndTime: time.Unix(1700003600, 0).UTC()}
+	var tgt messages.Ticket
+	if err := tgt.Unmarshal(tk.Bytes()); err != nil {
+		return evid.Fail("harness", "ticket: %v", err)
+	}
+	cname := types.PrincipalName{NameType: 1, NameString: []string{"alice"}}
+	sname := types.PrincipalName{NameType: 2, NameString: []string{"HTTP", "web.example.com"}}
+	var body *messages.KDCReqBody
+	var marshal func() ([]byte, error)
+	schema := der.TGSReq
+	var tgs messages.TGSReq
+	var as messages.ASReq
+	switch {
+	case c.Type == "built-asreq":
+		as, err = messages.NewASReqForTGT("EXAMPLE.COM", cfg, cname)
+		body, marshal, schema = &as.ReqBody, as.Marshal, der.ASReq
+	case c.N%2 == 0:
+		tgs, err = messages.NewTGSReq(cname, "EXAMPLE.COM", cfg, tgt, sess, sname, c.N%4 == 2)
+		body, marshal = &tgs.ReqBody, tgs.Marshal
+	default:
+		tgs, err = messages.NewUser2UserTGSReq(cname, "EXAMPLE.COM", cfg, tgt, sess, sname, false, tgt)
+		body, marshal = &tgs.ReqBody, tgs.Marshal
+	}
+	if err != nil {
+		return evid.Fail("harness", "constructor: %v", err)
+	}
+	what := []string{"nothing", "nonce", "till", "etype", "kdc-options", "additional-ticket", "sname"}[(c.N/4)%7]
+	switch what {
+	case "nonce":
+		body.Nonce = 1234567 + int(c.Seed%1000)
+	case "till":
+		body.Till = time.Unix(1900000000+int64(c.Seed%1000), 0).UTC()
+	case "etype":
+		body.EType = []int32{23, 17}
+	case "kdc-options":
+		types.SetFlag(&body.KDCOptions, 8) // RENEWABLE
+		types.SetFlag(&body.KDCOptions, 27)
+	case "additional-ticket":
+		body.AdditionalTickets = append(body.AdditionalTickets, tgt)
+	case "sname":
+		body.SName = types.PrincipalName{NameType: 2, NameString: []string{"host", "other.example.com"}}
+	}
+	out, err := marshal()
+	if err != nil {
+		return evid.Fail("built:marshal-error", "Marshal of a constructed %s after assigning %s: %v", c.Type, what, err)
+	}
+	m, err := schema.DecodeM(out)
+	if err != nil {
+		return evid.Fail("built:not-conformant", "the encoding of a constructed %s (after assigning %s) is not conformant: %v", c.Type, what, err)
+	}
+	rb := m["req-body"].(der.M)
+	var ets []int32
+	for _, e := range rb["etype"].([]any) {
+		ets = append(ets, int32(e.(int64)))
+	}
+	nAdd := 0
+	if l, ok := rb["additional-tickets"].([]any); ok {
+		nAdd = len(l)
+	}
+	got := fmt.Sprintf("nonce=%d till=%d etype=%v kdc-options=%x additional-tickets=%d sname=%v", rb["nonce"].(int64), rb["till"].(time.Time).Unix(), ets, rb["kdc-options"], nAdd, der.NameStrings(rb["sname"]))
+	want := fmt.Sprintf("nonce=%d till=%d etype=%v kdc-options=%x additional-tickets=%d sname=%v", body.Nonce, body.Till.Unix(), body.EType, body.KDCOptions.Bytes, len(body.AdditionalTickets), body.SName.NameString)
+	if got != want {
+		return evid.Fail("built:stale-field:"+what, "a %s made by the library's constructor had %s assigned and was marshalled: an independent decoder reads\n  %s\nthe object holds\n  %s", c.Type, what, got, want)
+	}
+	return evid.Pass()
+}
+
 func evalUse(c Case) evid.Verdict {
 	sig := "marshal-after-use:" + c.Type
 	switch c.Type {
@@ -527,6 +610,18 @@ func TestProp(t *testing.T) {
 		for _, et := range ref.ETypes {
 			for k := 0; k < r.N(6, 24); k++ {
 				c := Case{Type: ty, EType: et, Seed: r.Seed()*31 + uint64(k), N: k}
+				r.Count(fmt.Sprintf("%s|%d|%d", ty, et, k), "type:"+ty)
+				r.Sample(ty, c)
+				r.Violation("use", c, Eval(c))
+			}
+		}
+	}
+
+	r.Rule("built: TGS-REQ (NewTGSReq with and without renewal, NewUser2UserTGSReq) and AS-REQ (NewASReqForTGT) made by the library's constructors for every etype, one body field assigned afterwards {nothing, nonce, till, etype list, two KDC option bits, a further additional ticket, sname}, marshalled: an independent decoder must read the values the object holds")
+	for _, ty := range []string{"built-tgsreq", "built-asreq"} {
+		for _, et := range ref.ETypes {
+			for k := 0; k < 28; k++ {
+				c := Case{Type: ty, EType: et, Seed: r.Seed()*37 + uint64(k), N: k}
 				r.Count(fmt.Sprintf("%s|%d|%d", ty, et, k), "type:"+ty)
 				r.Sample(ty, c)
 				r.Violation("use", c, Eval(c))
